@@ -38,6 +38,9 @@ pub struct ExecutionParameters {
     /// Whether `errexit` (exit on error) behavior should be
     /// suppressed in this execution context. Defaults to `false`.
     pub suppress_errexit: bool,
+    /// The descriptors changed by the redirections of the simple command being executed
+    /// (as opposed to those of the commands enclosing it).
+    own_redirected_fds: Vec<ShellFd>,
 }
 
 impl ExecutionParameters {
@@ -146,6 +149,25 @@ impl ExecutionParameters {
     /// * `file` - The open file to set.
     pub fn set_fd(&mut self, fd: ShellFd, file: openfiles::OpenFile) {
         self.open_files.set_fd(fd, file);
+    }
+
+    /// Returns the descriptors that the redirections of the simple command being executed
+    /// opened, duplicated or closed; redirections of enclosing commands are not included.
+    /// This is what `exec` without a command makes permanent.
+    pub fn own_redirected_fds(&self) -> &[ShellFd] {
+        &self.own_redirected_fds
+    }
+
+    /// Applies a redirection of the current command: `fd` now refers to `file`.
+    fn redirect_fd(&mut self, fd: ShellFd, file: openfiles::OpenFile) {
+        self.open_files.set_fd(fd, file);
+        self.own_redirected_fds.push(fd);
+    }
+
+    /// Applies a redirection of the current command: `fd` is closed.
+    fn close_redirected_fd(&mut self, fd: ShellFd) {
+        self.open_files.remove_fd(fd);
+        self.own_redirected_fds.push(fd);
     }
 
     /// Iterates over all open file descriptors in this context.
@@ -1219,6 +1241,9 @@ impl<SE: extensions::ShellExtensions> ExecuteInPipeline<SE> for ast::SimpleComma
         mut context: PipelineExecutionContext<'_, SE>,
         mut params: ExecutionParameters,
     ) -> Result<ExecutionSpawnResult, error::Error> {
+        // The redirections seen so far belong to enclosing commands.
+        params.own_redirected_fds.clear();
+
         let prefix_iter = self.prefix.as_ref().map(|s| s.0.iter()).unwrap_or_default();
         let suffix_iter = self.suffix.as_ref().map(|s| s.0.iter()).unwrap_or_default();
         let cmd_name_items = self
@@ -1811,7 +1836,7 @@ pub(crate) async fn setup_redirect(
                             )
                         })?;
 
-                    params.open_files.set_fd(fd_num, opened_file);
+                    params.redirect_fd(fd_num, opened_file);
                 }
 
                 ast::IoFileRedirectTarget::Fd(fd) => {
@@ -1826,7 +1851,7 @@ pub(crate) async fn setup_redirect(
                     let fd_num = specified_fd_num.unwrap_or(default_fd_if_unspecified);
 
                     if let Some(target_file) = params.try_fd(shell, *fd) {
-                        params.open_files.set_fd(fd_num, target_file);
+                        params.redirect_fd(fd_num, target_file);
                     } else {
                         return Err(error::ErrorKind::BadFileDescriptor(*fd).into());
                     }
@@ -1874,7 +1899,7 @@ pub(crate) async fn setup_redirect(
                             return Err(error::ErrorKind::BadFileDescriptor(source_fd_num).into());
                         };
 
-                        params.open_files.set_fd(fd_num, target_file);
+                        params.redirect_fd(fd_num, target_file);
 
                         if dash {
                             fd_to_close = (source_fd_num != fd_num).then_some(source_fd_num);
@@ -1891,7 +1916,7 @@ pub(crate) async fn setup_redirect(
 
                     if let Some(fd_to_close) = fd_to_close {
                         // Close the fd. Ignore it if it's not valid.
-                        params.open_files.remove_fd(fd_to_close);
+                        params.close_redirected_fd(fd_to_close);
                     }
                 }
 
@@ -1915,7 +1940,7 @@ pub(crate) async fn setup_redirect(
                             let fd_num = specified_fd_num
                                 .unwrap_or_else(|| get_default_fd_for_redirect_kind(kind));
 
-                            params.open_files.set_fd(fd_num, target_file);
+                            params.redirect_fd(fd_num, target_file);
                         }
                         _ => return error::unimp("invalid process substitution"),
                     }
@@ -1936,7 +1961,7 @@ pub(crate) async fn setup_redirect(
 
             let f = setup_open_file_with_contents(io_here_doc.as_str())?;
 
-            params.open_files.set_fd(fd_num, f);
+            params.redirect_fd(fd_num, f);
         }
 
         ast::IoRedirect::HereString(fd_num, word) => {
@@ -1948,7 +1973,7 @@ pub(crate) async fn setup_redirect(
 
             let f = setup_open_file_with_contents(expanded_word.as_str())?;
 
-            params.open_files.set_fd(fd_num, f);
+            params.redirect_fd(fd_num, f);
         }
     }
 
@@ -2003,8 +2028,8 @@ fn setup_redirect_output_and_error_to(
 
     let stderr_file = stdout_file.clone();
 
-    params.open_files.set_fd(OpenFiles::STDOUT_FD, stdout_file);
-    params.open_files.set_fd(OpenFiles::STDERR_FD, stderr_file);
+    params.redirect_fd(OpenFiles::STDOUT_FD, stdout_file);
+    params.redirect_fd(OpenFiles::STDERR_FD, stderr_file);
 
     Ok(())
 }
